@@ -94,6 +94,17 @@ def install(fs):
         def open(self, mode="r"):
             return fopen(self.p, mode)
 
+        def unlink(self, missing_ok=False):
+            if self.p not in fs.files and missing_ok:
+                return
+            FOS.remove(self.p)
+
+        def replace(self, target):
+            FOS.replace(self.p, target)
+            return FPath(target)
+
+        rename = replace
+
         def __getattr__(self, name):
             raise StubGap("Path.%s" % name)
 
@@ -176,7 +187,7 @@ def install(fs):
             ver_ok = data.get("internal_version") == MachineModel.INTERNAL_VERSION
             fs.files[f.path] = ("pickle", (COMPLETE if ver_ok else STALE, data.get("content")))
 
-    class FOS:
+    class _FOS:
         W_OK = 2
 
         @staticmethod
@@ -192,6 +203,29 @@ def install(fs):
                 raise OSError("read-only home")
             fs.dirs.add(str(path))
 
+        @staticmethod
+        def getpid():
+            return 4000
+
+        @staticmethod
+        def replace(src, dst):
+            src, dst = str(src), str(dst)
+            if src not in fs.files:
+                raise FileNotFoundError(src)
+            if not ((dst.startswith("/data/") and fs.data_writable) or dst.startswith(CACHE_DIR)):
+                raise PermissionError(dst)
+            fs.files[dst] = fs.files.pop(src)
+
+        rename = replace
+
+        @staticmethod
+        def remove(path):
+            if str(path) not in fs.files:
+                raise FileNotFoundError(str(path))
+            del fs.files[str(path)]
+
+        unlink = remove
+
         def __getattr__(self, name):
             raise StubGap("os.%s" % name)
 
@@ -203,7 +237,8 @@ def install(fs):
             return d
 
     saved = (hw.Path, hw.hashlib, hw.pickle, hw.os, getattr(hw, "open", None), MachineModel._create_yaml_object, hw.utils.CACHE_DIR, dict(MachineModel._runtime_cache))
-    hw.Path, hw.hashlib, hw.pickle, hw.os, hw.open = FPath, FHash(), FPickle, FOS(), fopen
+    FOS = _FOS()
+    hw.Path, hw.hashlib, hw.pickle, hw.os, hw.open = FPath, FHash(), FPickle, FOS, fopen
     MachineModel._create_yaml_object = lambda self: FYaml()
     hw.utils.CACHE_DIR = CACHE_DIR
     return saved
@@ -478,6 +513,67 @@ def real_fs(e0: int, e1: int, e2: int) -> bool:
     return verdict(ok, nontrivial=nt, sample=sample)
 
 
+# ---- two processes populating the same cache at the same time (inode file system + scheduler) ----------
+
+RACE_CONFIGS = [(True, st, 0, False) for st in range(4)] + [(False, 0, st, d) for st in range(4) for d in (False, True) if not (st != 0 and not d)]
+MAXSTEP = 40
+
+
+def _race_concrete(switches, cfg):
+    from harness import _fsrace as R
+    writable, comp, home, home_dir = RACE_CONFIGS[cfg]
+    sw = sorted(set(x for x in switches if x > 0))
+    ok, detail, steps = R.race(sw, 0, comp, home, writable, home_dir)
+    if steps >= MAXSTEP:
+        raise StubGap("a run takes more file-system steps (%d) than the schedule positions cover" % steps)
+    names = ["absent", "truncated", "complete", "stale"]
+    return ok, len(sw) > 0, {"switch_after_steps": sw, "data_dir_writable": writable, "companion_slot": names[comp], "home_slot": names[home], "home_cache_dir_exists": home_dir, **detail}
+
+
+def _race(s1, s2, s3, s4, cfg):
+    if not (s1 <= s2 <= s3 <= s4) or (s1 > 0 and s1 == s2) or (s2 > 0 and s2 == s3) or (s3 > 0 and s3 == s4):
+        return True            # canonical: ascending, unused switches are 0 and come first
+    from vp.symx import native
+    sw = [pick(s1, MAXSTEP), pick(s2, MAXSTEP), pick(s3, MAXSTEP), pick(s4, MAXSTEP)]
+    try:
+        ok, nt, sample = native(_race_concrete, sw, pick(cfg, len(RACE_CONFIGS)))
+    except StubGap as e:
+        stub_gap(e)
+        return True
+    return verdict(ok, nontrivial=nt, sample=sample)
+
+
+def race2(s3: int, s4: int, cfg: int) -> bool:
+    """
+    pre: 0 <= s3 < 40 and 0 <= s4 < 40 and 0 <= cfg < 9
+    post: _
+    """
+    lo, hi = shard(MAXSTEP)
+    if not (lo <= s4 < hi):
+        return True
+    return _race(0, 0, s3, s4, cfg)
+
+
+def race3(s2: int, s3: int, s4: int, cfg: int) -> bool:
+    """
+    pre: 0 <= s2 < 40 and 0 <= s3 < 40 and 0 <= s4 < 40 and 0 <= cfg < 9
+    post: _
+    """
+    if not (shard(64)[0] <= (s4 % 8) * 8 + s3 % 8 < shard(64)[1]):
+        return True
+    return _race(0, s2, s3, s4, cfg)
+
+
+def race4(s1: int, s2: int, s3: int, s4: int, ro: bool) -> bool:
+    """
+    pre: 0 <= s1 < 40 and 0 <= s2 < 40 and 0 <= s3 < 40 and 0 <= s4 < 40
+    post: _
+    """
+    if not (shard(64)[0] <= (s4 % 8) * 8 + s3 % 8 < shard(64)[1]):
+        return True
+    return _race(s1, s2, s3, s4, 4 if ro else 0)
+
+
 CELLS = {
     "one_run": {"fn": one_run, "bound": "one construction from every file-system state: content ids by equality pattern (current / companion slot's / home slot's), 7 slot states each, data dir writable or not, home creatable or not, stale in-process cache entry, lazy or full load",
                 "budget": {"quick": 170, "thorough": 600}, "shards": 16},
@@ -486,13 +582,17 @@ CELLS = {
     "real_fs2": {"fn": real_fs2, "tiers": ("quick",), "bound": "as real_fs with histories run + 2 events + run", "budget": {"quick": 170}, "shards": 16},
     "real_fs": {"fn": real_fs, "tiers": ("thorough",), "bound": "concrete witness on a real temporary file system with real pickles (zen1.yml copy): all 3-event histories over {run, edit near the end of the file, edit in the header, cache file cut to 0 bytes / half / last byte missing, data directory made read-only} followed by a run, each run compared with a cache-less parse of the current content",
                 "budget": {"thorough": 900}, "shards": 16},
+    "race2": {"fn": race2, "bound": "two processes constructing the same model concurrently on a shared inode file system (handles follow renames, open('wb') truncates in place, readers of an inode with an unfinished writer see a truncated stream, per-process runtime cache and pid): every interleaving with <= 2 context switches at any of 39 file-system steps (both runs together take <= 32 on the current tree) x 9 start states (data dir writable with companion slot absent/truncated/complete/stale; read-only with home slot likewise, cache dir present or not); neither process may fail, both get the current data, a later run succeeds",
+              "budget": {"quick": 170, "thorough": 600}, "shards": 16},
+    "race3": {"fn": race3, "tiers": ("thorough",), "bound": "as race2 with <= 3 context switches", "budget": {"thorough": 1200}, "shards": 64},
+    "race4": {"fn": race4, "tiers": ("thorough",), "bound": "<= 4 context switches from the two cold-start states (no slot; data dir writable / read-only)", "budget": {"thorough": 2400}, "shards": 64},
     "pickle_contract": {"fn": pickle_contract, "bound": "real pickle stream cut at 0 bytes / header / mid-stream / last byte", "budget": {"quick": 60, "thorough": 60}},
 }
 
 META = {
     "functions": ["MachineModel.__init__ (cache lookup, YAML load, lazy branch, runtime cache)", "MachineModel._get_cached", "MachineModel._write_in_cache"],
     "bounds": "one model file, one companion and one home slot; every combination of slot states; histories of 3 events + final run",
-    "outside": "real file systems, real pickle byte streams (behind the stub contract, validated by pickle_contract), os.access semantics, N truly concurrent processes (a racing writer is modelled as a reader observing a mid-write slot)",
-    "stubs": ["pathlib.Path, hashlib.sha256 (injective on content ids), pickle.load/dump, os.access/makedirs, open, MachineModel._create_yaml_object rebound in osaca.semantics.hw_model"],
+    "outside": "real file systems, real pickle byte streams (behind the stub contract, validated by pickle_contract), os.access semantics, more than 2 concurrent processes, more than 4 context switches, byte-level interleaving of two in-place writers (both write the same bytes; modelled as: truncated until the last writer closes), temporary files created through the tempfile module (not rebound)",
+    "stubs": ["harness/_fsrace.py: inode file system + deterministic two-thread scheduler (race cells)", "pathlib.Path, hashlib.sha256 (injective on content ids), pickle.load/dump, os.access/makedirs, open, MachineModel._create_yaml_object rebound in osaca.semantics.hw_model"],
     "assumptions": ["invariant: a complete slot named with hash(c) was produced from content c (hash collisions excluded)"],
 }
